@@ -198,10 +198,9 @@ def run(ctx):
     a = U.calls_in(cfg, 'set_state')
     ok = False
     for n, c in a:
-        g = [(norm(t), pol) for (t, pol, _g) in cfg.guards(n)
-             if isinstance(t, ast.expr)]
-        ok = ("task.get_state() != states.SUCCESS", False) in g and \
-            ("self.fail_on", True) in g and \
+        ok = U.guarded(cfg, n, 'task.get_state() == states.SUCCESS',
+                       True) and \
+            U.guarded(cfg, n, 'self.fail_on', True) and \
             norm(c.args[0]) == 'states.ERROR'
     r3.check(ok, ctx.construct(fo), 'fail-on does not turn exactly a '
              'SUCCESS task into ERROR when its condition holds',
@@ -284,11 +283,8 @@ def run(ctx):
     clcfg = ctx.cfg(cl)
     okfb = False
     for n, c in clcfg.calls(lambda c: U.phas(c, '__f(wf_policies)')):
-        g = [(norm(t), pol) for (t, pol, _g) in clcfg.guards(n)
-             if isinstance(t, ast.expr)]
-        okfb = okfb or any(pol and U.phas(ast.parse(t),
-                                          'wf_policies and not policy')
-                           for t, pol in g)
+        okfb = okfb or U.guarded(clcfg, n, 'wf_policies and not policy',
+                                 True)
     r4.check(okfb,
              ctx.construct(cl, extra='task-defaults fallback'),
              'task-defaults policies are not used as a fall-back', ctx.loc(cl))
